@@ -139,7 +139,7 @@ def matrix_of(shape, code):
 
 
 # ------------------------------------------------------------------------- adjacency / uc menus
-ADJ_RECS = [(o, s, v) for o in ('a', 'b') for s in ('x', 'y') for v in ('1', '2.5', '1e3')]
+ADJ_RECS = [(o, s, v) for o in ('a', 'b') for s in ('x', 'y') for v in ('1', '2.5', '1e3', '0')]   # incl. zero-valued records
 ADJ_HEADER = '#OTU ID\tSampleID\tvalue'
 ADJ_CONTAINERS = ['list', 'list_nl', 'string', 'string_nl', 'stringio', 'filehandle']
 
@@ -315,6 +315,12 @@ def check_M(case, acc):
             continue
         acc.trans += 1
         acc.evals += 1
+        import scipy.sparse as _sp
+        snap = None
+        if _sp.issparse(enc[0]):
+            snap = (enc[0].getformat(), enc[0].nnz, enc[0].toarray().tolist(),
+                    [a.tolist() for a in (getattr(enc[0], 'data', None), getattr(enc[0], 'indices', None))
+                     if isinstance(a, np.ndarray)])
         try:
             from biom import Table
             t = Table(enc[0], O, S, **enc[1])
@@ -323,6 +329,31 @@ def check_M(case, acc):
                 % (name, model, type(e).__name__, str(e)[:200]))
             continue
         acc.count('form:' + name)
+        if snap is not None:
+            # the caller's matrix is an input, not the table's storage: building the table, and changing the
+            # table in place afterwards, must leave it alone, so that a second table built from it is the same
+            try:
+                t.transform(lambda v, i, md: v * 3 + 1, axis='observation', inplace=True)
+                t.transform(lambda v, i, md: v * 5 + 2, axis='sample', inplace=True)
+                now = (enc[0].getformat(), enc[0].nnz, enc[0].toarray().tolist(),
+                       [a.tolist() for a in (getattr(enc[0], 'data', None), getattr(enc[0], 'indices', None))
+                        if isinstance(a, np.ndarray)])
+                t2 = Table(enc[0], O, S, **enc[1])
+                got2 = [[float(v) for v in row] for row in t2.matrix_data.toarray().tolist()]
+            except Exception as e:
+                bad('form-raised:%s:%s' % (name, type(e).__name__), 'second construction from the same %s object '
+                    'raised %s: %s' % (name, type(e).__name__, str(e)[:200]))
+                continue
+            if now != snap:
+                bad('form-input-modified:' + family(name), 'the %s matrix handed to the constructor was changed '
+                    '(by the construction or by later in-place operations on the table): %r -> %r' % (name, snap, now))
+                continue
+            if got2 != model:
+                bad('form-values:' + name, 'a second table built from the same %s object holds %r, not %r'
+                    % (name, got2, model))
+                continue
+            acc.count('clause:sparse-input-left-alone')
+            t = Table(enc[0], O, S, **enc[1])
         ok = True
         if tuple(t.shape) != shape:
             bad('form-shape:' + name, '%s of %r has shape %r' % (name, model, tuple(t.shape)))
